@@ -93,4 +93,53 @@ theorem pkProj_storedKey (tgb pk : List String) (h : partitionKeysKept tgb pk = 
       simpa using this
     simp only [DKey.get, lookup_filter_names tgb n hmem k]
 
+/-- with pass-through fields the exact-match rule picks the column of the expression itself,
+    once, however the other select expressions overlap with it -/
+theorem pickExact_self (st : Ex → List Cell) (e : Ex) :
+    ∀ (fields : List Ex), e ∈ fields → pickExact (fields.map (fun f => (f, st f))) e = [st e] := by
+  intro fields
+  induction fields with
+  | nil => intro h; cases h
+  | cons f fs ih =>
+    intro h
+    unfold pickExact
+    simp only [List.map_cons, dedupCols]
+    by_cases hfe : f = e
+    · subst hfe
+      simp only [List.filter_cons, beq_self_eq_true, if_true, List.map_cons, List.filter_filter]
+      have : (dedupCols (fs.map (fun f' => (f', st f')))).filter
+          (fun c => (c.1 == f) && (c.1 != f)) = [] := by
+        apply List.filter_eq_nil_iff.mpr
+        intro c _
+        cases hc : c.1 == f <;> simp [hc, bne]
+      simp [this]
+    · have hne : (f == e) = false := by simpa using hfe
+      have hmem : e ∈ fs := by
+        rcases List.mem_cons.mp h with h' | h'
+        · exact absurd h'.symm hfe
+        · exact h'
+      simp only [List.filter_cons, hne, Bool.false_eq_true, if_false, List.filter_filter]
+      have := ih hmem
+      unfold pickExact at this
+      rw [← this]
+      congr 1
+      apply List.filter_congr
+      intro c _
+      cases hc : c.1 == e
+      · simp
+      · have : c.1 = e := by simpa using hc
+        have hcf : (c.1 != f) = true := by
+          rw [this]; simpa [bne] using fun h' : e = f => hfe h'.symm
+        simp [hcf]
+
+theorem leaderStateCols_eq (fields : List Ex) (e : Ex) (he : e ∈ fields) (sel : Option String)
+    (ms : List SRow) : leaderStateCols fields e sel ms = leaderState e sel ms := by
+  unfold leaderStateCols leaderState
+  congr 1
+  induction ms.filter (selS sel) with
+  | nil => rfl
+  | cons m rest ih =>
+    simp only [List.flatMap_cons, List.map_cons, ih, pickExact_self (fun f => m.st f) e fields he]
+    rfl
+
 end Zeno.PlanLemmas
